@@ -5,8 +5,8 @@ import Taskpool.Inv.WantWalk2
 spawner (its `must_cancel` flag, a cancelled entry of its in one of the waiter queues) goes back to a `cancel_group` /
 `cancel_all` that filed it as cancelled (ghost `everCancelled`); a live spawner that was never cancelled is filed as
 running (so `_start_task` ignores the lock for it); and a spawner that was never cancelled and has an outcome has
-finished normally with **nothing left** — `remaining = 0`, `items = []` — or is a map-style request whose argument
-iterator raised. -/
+finished normally with **nothing left** — `remaining = 0`, `items = []`, and for a map-style request no pulled element
+in hand (`pulled = created + skipped`) — or is a map-style request whose argument iterator raised. -/
 namespace Taskpool
 namespace Pool
 
@@ -18,7 +18,8 @@ structure FinOK (p : Pool) : Prop where
   cm : ∀ (m : Nat) (r : Req), p.reqs[m]? = some r → ∀ w ∈ r.mapSem.waiters, w.st = .cancelled → r.everCancelled = true
   ir : ∀ (m : Nat) (r : Req), p.reqs[m]? = some r → r.outcome = none → r.everCancelled = false → r.inRunning = true
   ok : ∀ (m : Nat) (r : Req), p.reqs[m]? = some r → r.everCancelled = false → ∀ o, r.outcome = some o →
-         (o = .ok ∧ r.remaining = 0 ∧ r.items = []) ∨ (r.kind = .map ∧ o = .exc (.user 4))
+         (o = .ok ∧ r.remaining = 0 ∧ r.items = [] ∧ (r.kind = .map → r.pulled = r.created + r.skipped)) ∨
+         (r.kind = .map ∧ o = .exc (.user 4))
   /-- `map` rejects `num_concurrent < 1` (the ghost `nc` is the initial value of the call's own semaphore) -/
   nc1 : ∀ (m : Nat) (r : Req), p.reqs[m]? = some r → r.kind = .map → 1 ≤ r.nc
   /-- needed for `ok` to be inductive: an apply-style request has no argument iterator … -/
@@ -27,6 +28,12 @@ structure FinOK (p : Pool) : Prop where
   km : ∀ (m : Nat) (r : Req), p.reqs[m]? = some r → r.kind = .map → r.remaining = 0
   /-- … and only a map-style request waits for a call's own semaphore (`_arg_consumer` resumes from there) -/
   kw : ∀ (m : Nat) (r : Req), p.reqs[m]? = some r → r.frame = .waitMapSem → r.kind = .map
+  /-- a live map-style spawner that has not begun has nothing in hand: every pulled element is a task or was skipped … -/
+  pc0 : ∀ (m : Nat) (r : Req), p.reqs[m]? = some r → r.kind = .map → r.outcome = none → r.frame = .notStarted →
+          r.pulled = r.created + r.skipped
+  /-- … one that is suspended in an `acquire()` holds exactly one pulled element for which no task exists yet -/
+  pc1 : ∀ (m : Nat) (r : Req), p.reqs[m]? = some r → r.kind = .map → r.outcome = none →
+          r.frame = .waitRoom ∨ r.frame = .waitMapSem → r.pulled = r.created + r.skipped + 1
 
 /-- the invariant that is lifted: `Want` (needed for "a spawner with an outcome is never stepped again") and `FinOK` -/
 def WantFin (p : Pool) : Prop := Want p ∧ FinOK p
